@@ -1,3 +1,4 @@
+import Rp2.Props.Tables.Consts
 import Rp2.Proofs.RoundErr
 /-! # C04 — proceeds, cost basis and gain of every fraction are arithmetically exact
 `d*` operations are `rnd 31 ∘ exact` (Python's 31-digit decimal context, validated bit-exactly by the Dec stream). -/
@@ -50,4 +51,7 @@ theorem two_roundings_bound (r : ℚ → ℚ) (ε : ℚ) (hε : 0 ≤ ε) (hr : 
 /-- the integer rounding used by the decimal model is within one half -/
 theorem round_half_even_err (n d : Nat) (hd : 0 < d) :
     |((roundHalfEvenNat n d : Nat) : ℚ) - (n : ℚ) / (d : ℚ)| ≤ 1 / 2 := roundHalfEvenNat_err n d hd
+/-- tie: 31-digit half-even decimal context with the float trap set, 13-decimal comparisons, `%.11f` cell conversion -/
+theorem decimal_context : Gen.prec = 31 ∧ Gen.rounding = "ROUND_HALF_EVEN" ∧ Gen.floatTrap = true ∧ Gen.cryptoDecimals = 13 ∧ Gen.balanceDecimals = 10 ∧
+    Gen.tableEnd = "TABLE END" ∧ Gen.parserFormatSpecs = ["f'.11f'"] := Tables.consts_agree
 end Rp2.C04
